@@ -1277,12 +1277,12 @@ impl<Sink: TokenSink> XmlTokenizer<Sink> {
         // FIXME: the spec says we should error as soon as the name is finished.
         // FIXME: linear time search, do we care?
         let dup = {
-            let current_attr_name = self.current_attr_name.borrow();
-            let name = &current_attr_name[..];
+            // Compare qualified names: `p:x` and `x` are different attributes.
+            let name = process_qname(self.current_attr_name.borrow().clone());
             self.current_tag_attrs
                 .borrow()
                 .iter()
-                .any(|a| &*a.name.local == name)
+                .any(|a| a.name.prefix == name.prefix && a.name.local == name.local)
         };
 
         if dup {
